@@ -12,8 +12,8 @@ CLASSES = {
         "invariant": {
             "C16.I1 period is at least 1 ms": "P >= 1000",
             "I2 k counts completed waits": "k >= 0",
-            "C16.I3 next expiry is on the grid: expiry == t0 + (k+1)*P": "implies(h is not None, self._expiry_time == t0 + (k + 1) * P)",
-            "C16.I4 the HAL alarm is the next grid point and the handle is live": "implies(h is not None, h.alarm == self._expiry_time and h.cleaned == 0)",
+            "C16.I3 (also C05: one iteration per period) next expiry is on the grid: expiry == t0 + (k+1)*P": "implies(h is not None, self._expiry_time == t0 + (k + 1) * P)",
+            "C16.I4 (also C05: one iteration per period) the HAL alarm is the next grid point and the handle is live": "implies(h is not None, h.alarm == self._expiry_time and h.cleaned == 0)",
         },
     },
 }
@@ -24,7 +24,7 @@ CONTRACTS = {
         "raises": "ValueError",
         "ghost_exit": {"self.g_t0": "g_now", "self.g_k": "0"},
         "ensures": {"C16.N1 accepted periods are >= 1 ms": "delay_period >= 0.001",
-                    "C16.N2 first alarm at t0 + P": "h is not None and h.alarm == g_now + P and t0 == g_now and k == 0",
+                    "C16.N2 (also C05: one iteration per period) first alarm at t0 + P": "h is not None and h.alarm == g_now + P and t0 == g_now and k == 0",
                     "clock untouched": "g_now == old(g_now)"},
         "ensures_raise": {"C16.N3 only periods below 1 ms are rejected": "delay_period < 0.001"},
         "modifies": ["self.delay_period", "self._notifier", "self._expiry_time", "self.g_t0", "self.g_k", "Handle.alarm[*]", "Handle.updates[*]"],
@@ -40,10 +40,10 @@ CONTRACTS = {
         "ghost_exit": {"self.g_k": "old(k) + 1 if old(h) is not None else old(k)"},
         "modifies": ["self._expiry_time", "self.g_k", "g_now", "Handle.alarm[*]", "Handle.updates[*]"],
         "ensures": {
-            "C16.W1 the k-th wait never returns before t0 + k*P": "implies(old(h) is not None, g_now >= t0 + k * P)",
-            "C16.W2 returns exactly at t0 + k*P when the body had finished by then": "implies(old(h) is not None and old(g_now) <= t0 + k * P, g_now == t0 + k * P)",
-            "C16.W3 an overrun is not waited for again (returns at once)": "implies(old(h) is not None and old(g_now) >= t0 + k * P, g_now == old(g_now))",
-            "C16.W4 next alarm is the next grid point whatever the body took": "implies(old(h) is not None, h is not None and h.alarm == t0 + (k + 1) * P)",
+            "C16.W1 (also C05: one iteration per period) the k-th wait never returns before t0 + k*P": "implies(old(h) is not None, g_now >= t0 + k * P)",
+            "C16.W2 (also C05: one iteration per period) returns exactly at t0 + k*P when the body had finished by then": "implies(old(h) is not None and old(g_now) <= t0 + k * P, g_now == t0 + k * P)",
+            "C16.W3 (also C05: one iteration per period) an overrun is not waited for again (returns at once)": "implies(old(h) is not None and old(g_now) >= t0 + k * P, g_now == old(g_now))",
+            "C16.W4 (also C05: one iteration per period) next alarm is the next grid point whatever the body took": "implies(old(h) is not None, h is not None and h.alarm == t0 + (k + 1) * P)",
             "C16.W5 after free() wait returns immediately and touches nothing": "implies(old(h) is None, g_now == old(g_now) and h is None and self._expiry_time == old(self._expiry_time))",
             "grid origin fixed": "t0 == old(t0) and P == old(P)",
             "k counts the completed waits": "k == (old(k) + 1 if old(h) is not None else old(k)) and (h is None) == (old(h) is None)",
